@@ -478,7 +478,8 @@ def copy_array(x, xp: Any = None) -> Array:
         if is_torch_array(x):
             return xp.clone(x)
         else:
-            return xp.as_tensor(x)
+            # as_tensor shares memory with NumPy arrays: clone to get a copy
+            return xp.clone(xp.as_tensor(x))
     else:
         try:
             return xp.copy(x)
